@@ -1,5 +1,6 @@
 use crate::diagnostic_emitter::MosResult;
 use crate::impl_request_handler;
+use crate::lsp::DocumentPath;
 use crate::lsp::{to_range, LspContext, RequestHandler};
 use lsp_types::request::{DocumentSymbolRequest, WorkspaceSymbol};
 use lsp_types::{
@@ -24,7 +25,7 @@ impl RequestHandler<DocumentSymbolRequest> for DocumentSymbolRequestHandler {
         params: DocumentSymbolParams,
     ) -> MosResult<Option<DocumentSymbolResponse>> {
         if let Some(tree) = &ctx.tree {
-            let path = params.text_document.uri.to_file_path().unwrap();
+            let path = params.text_document.uri.document_path();
             if let Some(file) = tree.try_get_file(&path) {
                 if let Some(codegen) = ctx.codegen() {
                     let emitter = DocSymEmitter {
